@@ -21,6 +21,12 @@ BLIND = {  # did the owning check exist, unchanged, before the change was seen?
     'b4-C05': 'yes - caught by a shape accident, rule rewritten (C05.R2 dtype typestate)',
     'b4-C15': 'yes - MISSED by C15 (C03.R3 reported it), then fixed: C15.R1 unfiltered group, C15.R7',
     'b4-C16': 'yes - ANALYSIS-ERROR (idiom unknown, not decided); then C16.R6 layout table decides it (patch rebased on fix 7888e06)',
+    'b5-C01': 'yes - MISSED (simulation used sorted consumer lists only), then fixed: unsorted rows in C01.R15',
+    'b5-C08': 'yes - MISSED; delivered for C08, its trigger was defect F13 (now repaired); kept under C04 with an own demo; decided by C04.R10',
+    'b5-C09': 'yes - MISSED by C09, C10.R1/R2 reported; C10.R2 strengthened (every iteration path) and shared as C09.R10',
+    'b5-C10': 'yes - MISSED (only a false report from C12.R2, since fixed); then C10.R6 table',
+    'b5-C11': 'yes - caught (C11.R1 purity, C11.R3/R4; also C03.R10, C14)',
+    'b5-C13': 'yes - MISSED by C13; C11/C03/C08/C14 reported; C13.R6-R8 added',
     'b3-C18': 'yes (written minutes before) - MISSED, then fixed', 'b3-C19': 'yes - caught by C10.R2 only, C19.R8 added', 'b3-C01': 'yes - MISSED (declared blind spot), then fixed',
 }
 
